@@ -185,6 +185,15 @@ let rec combine l l' =
      | [] -> []
      | y :: tl' -> (x, y) :: (combine tl0 tl'))
 
+(** val firstn : nat -> 'a1 list -> 'a1 list **)
+
+let rec firstn n0 l =
+  match n0 with
+  | O -> []
+  | S n1 -> (match l with
+             | [] -> []
+             | a :: l0 -> a :: (firstn n1 l0))
+
 (** val nodup : ('a1 -> 'a1 -> bool) -> 'a1 list -> 'a1 list **)
 
 let rec nodup decA = function
@@ -1488,6 +1497,57 @@ let ty3_eqb a b =
   | TNodes -> (match b with
                | TNodes -> true
                | _ -> false)
+
+(** val s_length : str **)
+
+let s_length =
+  (Npos (XO (XO (XI (XI (XO (XI XH))))))) :: ((Npos (XI (XO (XI (XO (XO (XI
+    XH))))))) :: ((Npos (XO (XI (XI (XI (XO (XI XH))))))) :: ((Npos (XI (XI
+    (XI (XO (XO (XI XH))))))) :: ((Npos (XO (XO (XI (XO (XI (XI
+    XH))))))) :: ((Npos (XO (XO (XO (XI (XO (XI XH))))))) :: [])))))
+
+(** val s_count : str **)
+
+let s_count =
+  (Npos (XI (XI (XO (XO (XO (XI XH))))))) :: ((Npos (XI (XI (XI (XI (XO (XI
+    XH))))))) :: ((Npos (XI (XO (XI (XO (XI (XI XH))))))) :: ((Npos (XO (XI
+    (XI (XI (XO (XI XH))))))) :: ((Npos (XO (XO (XI (XO (XI (XI
+    XH))))))) :: []))))
+
+(** val s_value : str **)
+
+let s_value =
+  (Npos (XO (XI (XI (XO (XI (XI XH))))))) :: ((Npos (XI (XO (XO (XO (XO (XI
+    XH))))))) :: ((Npos (XO (XO (XI (XI (XO (XI XH))))))) :: ((Npos (XI (XO
+    (XI (XO (XI (XI XH))))))) :: ((Npos (XI (XO (XI (XO (XO (XI
+    XH))))))) :: []))))
+
+(** val s_match : str **)
+
+let s_match =
+  (Npos (XI (XO (XI (XI (XO (XI XH))))))) :: ((Npos (XI (XO (XO (XO (XO (XI
+    XH))))))) :: ((Npos (XO (XO (XI (XO (XI (XI XH))))))) :: ((Npos (XI (XI
+    (XO (XO (XO (XI XH))))))) :: ((Npos (XO (XO (XO (XI (XO (XI
+    XH))))))) :: []))))
+
+(** val s_search : str **)
+
+let s_search =
+  (Npos (XI (XI (XO (XO (XI (XI XH))))))) :: ((Npos (XI (XO (XI (XO (XO (XI
+    XH))))))) :: ((Npos (XI (XO (XO (XO (XO (XI XH))))))) :: ((Npos (XO (XI
+    (XO (XO (XI (XI XH))))))) :: ((Npos (XI (XI (XO (XO (XO (XI
+    XH))))))) :: ((Npos (XO (XO (XO (XI (XO (XI XH))))))) :: [])))))
+
+(** val builtin_registry : registry **)
+
+let builtin_registry =
+  (s_length, { f_args = (TValue :: []); f_ret = TValue; f_impl =
+    FLength }) :: ((s_count, { f_args = (TNodes :: []); f_ret = TValue;
+    f_impl = FCount }) :: ((s_match, { f_args = (TValue :: (TValue :: []));
+    f_ret = TLogical; f_impl = FMatch }) :: ((s_search, { f_args =
+    (TValue :: (TValue :: [])); f_ret = TLogical; f_impl =
+    FSearch }) :: ((s_value, { f_args = (TNodes :: []); f_ret = TValue;
+    f_impl = FValue }) :: []))))
 
 type envcfg = { min_idx : z; max_idx : z; max_depth : nat; reg : registry;
                 rx : (bool -> str -> str -> bool) }
@@ -6238,6 +6298,63 @@ let rec spec_decode q = function
              | None -> None)
        else None
 
+(** val count_lf : str -> z -> z **)
+
+let rec count_lf s stop =
+  match s with
+  | [] -> Z0
+  | c0 :: r0 ->
+    if Z.leb stop Z0
+    then Z0
+    else Z.add (if N.eqb c0 (Npos (XO (XI (XO XH)))) then Zpos XH else Z0)
+           (count_lf r0 (Z.sub stop (Zpos XH)))
+
+(** val rfind_lf_from : str -> z -> z -> z -> z **)
+
+let rec rfind_lf_from s pos stop last =
+  match s with
+  | [] -> last
+  | c0 :: r0 ->
+    if Z.leb stop pos
+    then last
+    else rfind_lf_from r0 (Z.add pos (Zpos XH)) stop
+           (if N.eqb c0 (Npos (XO (XI (XO XH)))) then pos else last)
+
+(** val rfind_lf : str -> z -> z **)
+
+let rfind_lf s stop =
+  rfind_lf_from s Z0 stop (Zneg XH)
+
+(** val m_position : str -> z -> z * z **)
+
+let m_position query0 index =
+  let line_number = Z.add (count_lf query0 index) (Zpos XH) in
+  let column_number = Z.sub index (rfind_lf query0 index) in
+  (line_number, (Z.sub column_number (Zpos XH)))
+
+(** val is_lf : n -> bool **)
+
+let is_lf c0 =
+  N.eqb c0 (Npos (XO (XI (XO XH))))
+
+(** val line_of : str -> nat -> z **)
+
+let line_of text off =
+  Z.add (Zpos XH) (Z.of_nat (length (filter is_lf (firstn off text))))
+
+(** val since_last_lf : str -> z -> z **)
+
+let rec since_last_lf prefix acc =
+  match prefix with
+  | [] -> acc
+  | c0 :: r0 ->
+    since_last_lf r0 (if is_lf c0 then Z0 else Z.add acc (Zpos XH))
+
+(** val col_of : str -> nat -> z **)
+
+let col_of text off =
+  since_last_lf (firstn off text) Z0
+
 (** val iota_json : z -> json list **)
 
 let iota_json len =
@@ -6431,6 +6548,50 @@ let op_strlit = function
    | Some p -> let (b, _) = p in enc_opt enc_str (spec_decode (Z.to_N q) b)
    | None -> bad_request)
 
+(** val op_errpos : z list -> z list **)
+
+let op_errpos r0 =
+  match dec_str r0 with
+  | Some p ->
+    let (q, _) = p in
+    (match m_compile { min_idx =
+             (Z.add
+               (Z.opp
+                 (Z.pow (Zpos (XO XH)) (Zpos (XI (XO (XI (XO (XI XH))))))))
+               (Zpos XH)); max_idx =
+             (Z.sub (Z.pow (Zpos (XO XH)) (Zpos (XI (XO (XI (XO (XI XH)))))))
+               (Zpos XH)); max_depth = (S (S (S (S (S (S (S (S (S (S (S (S (S
+             (S (S (S (S (S (S (S (S (S (S (S (S (S (S (S (S (S (S (S (S (S
+             (S (S (S (S (S (S (S (S (S (S (S (S (S (S (S (S (S (S (S (S (S
+             (S (S (S (S (S (S (S (S (S (S (S (S (S (S (S (S (S (S (S (S (S
+             (S (S (S (S (S (S (S (S (S (S (S (S (S (S (S (S (S (S (S (S (S
+             (S (S (S
+             O))))))))))))))))))))))))))))))))))))))))))))))))))))))))))))))))))))))))))))))))))))))))))))))))))));
+             reg = builtin_registry; rx = (fun _ _ _ -> false) } q with
+     | Ok _ -> Z0 :: []
+     | Err (c0, off) ->
+       (match off with
+        | Some o ->
+          let (ln, col) = m_position q o in
+          (Zpos XH) :: ((jperr_code c0) :: (o :: (ln :: (col :: []))))
+        | None ->
+          (Zpos XH) :: ((jperr_code c0) :: ((Zneg (XI (XI (XO (XO (XO (XI
+            XH))))))) :: [])))
+     | Crash x -> (Zpos (XO XH)) :: ((pyexn_code x) :: [])
+     | OutOfFuel -> (Zpos (XI XH)) :: [])
+  | None -> bad_request
+
+(** val op_linecol : z list -> z list **)
+
+let op_linecol = function
+| [] -> bad_request
+| o :: r1 ->
+  (match dec_str r1 with
+   | Some p ->
+     let (q, _) = p in
+     (line_of q (Z.to_nat o)) :: ((col_of q (Z.to_nat o)) :: [])
+   | None -> bad_request)
+
 (** val dispatch : z list -> z list **)
 
 let dispatch = function
@@ -6447,6 +6608,13 @@ let dispatch = function
               (match p2 with
                | XO p3 ->
                  (match p3 with
+                  | XI p4 ->
+                    (match p4 with
+                     | XI p5 ->
+                       (match p5 with
+                        | XH -> op_linecol r0
+                        | _ -> bad_request)
+                     | _ -> bad_request)
                   | XO p4 ->
                     (match p4 with
                      | XI p5 ->
@@ -6454,7 +6622,7 @@ let dispatch = function
                         | XH -> op_sem r0
                         | _ -> bad_request)
                      | _ -> bad_request)
-                  | _ -> bad_request)
+                  | XH -> bad_request)
                | _ -> bad_request)
             | XO p2 ->
               (match p2 with
@@ -6485,7 +6653,11 @@ let dispatch = function
                         | _ -> bad_request)
                      | _ -> bad_request)
                   | _ -> bad_request)
-               | _ -> bad_request)
+               | XO p3 ->
+                 (match p3 with
+                  | XH -> op_errpos r0
+                  | _ -> bad_request)
+               | XH -> bad_request)
             | XH ->
               (match r0 with
                | [] -> bad_request
